@@ -25,6 +25,7 @@ TYPE_TABLE = [
     (r'^typename Protocol::endpoint$', 'ep_t'),
     (r'^(?:asio::)?ip::address$', 'addr_t'),
     (r'^route$', 'route_t'),
+    (r'^aux::packet$', 'struct packet'),
     (r'^type_t$', 'int'),
     (r'^boost::system::error_code$', 'int'),
     (r'^std::shared_ptr<aux::channel>$', 'struct channel *'),
@@ -172,12 +173,14 @@ def lowered_body(spec, unit, log):
     body = lower.apply_rules(body, unit.rules, log, 'pre')
     body = lower.apply_rules(body, lower.PRE_IDIOMS, log)
     body = lower.lower_std_move(body, unit.fnslots)
+    body = lower.lower_casts(body)
     body = lower.apply_rules(body, lower.GENERIC, log)
     body = lower.lower_members(body, None)
     sibs = unit.siblings + spec.siblings
     if sibs:
         body = lower.lower_siblings(body, unit.cprefix, sibs)
     body = lower.lower_ref_params(body, spec.refparams)
+    body = lower.lower_fp(body, log)
     body = lower.lower_slot_assign(body, unit.fnslots)
     body = re.sub(r'\bauto\s+(\w+)\s*=\s*fn_move\(', r'fn_t \1 = fn_move(', body)
     body = lower.apply_rules(body, unit.rules, log, 'post')
@@ -282,6 +285,8 @@ def build_tu(spec, workdir):
             # preconditions of replaced callees are checked at the call site: keep their labels
             tu.add(text, label if kind == 'requires' else None, 'callee-requires:' + cs.cname if kind == 'requires' else None)
         tu.add(';')
+    for h in spec.includes:
+        tu.add('#include "%s"' % h)
     body, ex = lowered_body(spec, unit, log)
     if spec.kind == 'ctor-defaults':
         pass
